@@ -537,3 +537,96 @@ Proof.
   rewrite rds_nf, fixamb_nf, fixtrail_nf. autorewrite with uri_db. usimpl.
   unfold build. destruct B as [sc ui ht i4 i6 ifu po ps qu fr ab' ow]; urec; reflexivity.
 Qed.
+
+(* ================================================================ 5. normalizing such a record *)
+Lemma comps_full u :
+  components (normalize 63 u) =
+  (omap lowercase (scheme u), omap fix_pct (userInfo u), norm_host_text u, ip4 u, ip6 u,
+   omap lowercase (ipFuture u), portText u, norm_segs u, absolutePath u,
+   omap fix_pct (query u), omap fix_pct (fragment u)).
+Proof. rewrite components_fields by discriminate. reflexivity. Qed.
+
+(* what normalization makes of the authority copied from [au] *)
+Definition auth_norm (au : uri) :=
+  let v := build None au [] false None None in
+  (omap fix_pct (userInfo v), norm_host_text v, ip4 v, ip6 v, omap lowercase (ipFuture v), portText v).
+
+Lemma comps_build_eq sc sc' au au' segs segs' ab q q' f f' :
+  omap lowercase sc = omap lowercase sc' -> is_some sc = true -> is_some sc' = true ->
+  auth_norm au = auth_norm au' -> is_host_set au = is_host_set au' ->
+  map fix_pct segs = map fix_pct segs' ->
+  omap fix_pct q = omap fix_pct q' -> omap fix_pct f = omap fix_pct f' ->
+  components (normalize 63 (build sc au segs ab q f)) = components (normalize 63 (build sc' au' segs' ab q' f')).
+Proof.
+  intros Hs Hs1 Hs2 Ha Hh Hp Hq Hf. rewrite !comps_full.
+  unfold norm_segs, relative_ref. rewrite !host_build.
+  change (scheme (build sc au segs ab q f)) with sc. change (scheme (build sc' au' segs' ab q' f')) with sc'.
+  change (pathSegs (build sc au segs ab q f)) with segs. change (pathSegs (build sc' au' segs' ab q' f')) with segs'.
+  change (absolutePath (build sc au segs ab q f)) with ab. change (absolutePath (build sc' au' segs' ab q' f')) with ab.
+  change (query (build sc au segs ab q f)) with q. change (query (build sc' au' segs' ab q' f')) with q'.
+  change (fragment (build sc au segs ab q f)) with f. change (fragment (build sc' au' segs' ab q' f')) with f'.
+  rewrite Hs1, Hs2, Hs, Hq, Hf, <- Hh. cbn [negb andb].
+  rewrite (nso_ext false (is_host_set au) ab segs segs' Hp).
+  unfold auth_norm in Ha. cbv zeta in Ha.
+  change (norm_host_text (build sc au segs ab q f)) with (norm_host_text (build None au [] false None None)).
+  change (norm_host_text (build sc' au' segs' ab q' f')) with (norm_host_text (build None au' [] false None None)).
+  change (userInfo (build sc au segs ab q f)) with (userInfo (build None au [] false None None)).
+  change (userInfo (build sc' au' segs' ab q' f')) with (userInfo (build None au' [] false None None)).
+  change (ip4 (build sc au segs ab q f)) with (ip4 (build None au [] false None None)).
+  change (ip4 (build sc' au' segs' ab q' f')) with (ip4 (build None au' [] false None None)).
+  change (ip6 (build sc au segs ab q f)) with (ip6 (build None au [] false None None)).
+  change (ip6 (build sc' au' segs' ab q' f')) with (ip6 (build None au' [] false None None)).
+  change (ipFuture (build sc au segs ab q f)) with (ipFuture (build None au [] false None None)).
+  change (ipFuture (build sc' au' segs' ab q' f')) with (ipFuture (build None au' [] false None None)).
+  change (portText (build sc au segs ab q f)) with (portText (build None au [] false None None)).
+  change (portText (build sc' au' segs' ab q' f')) with (portText (build None au' [] false None None)).
+  set (v := build None au [] false None None) in *. set (v' := build None au' [] false None None) in *.
+  clearbody v v'. injection Ha as H1 H2 H3 H4 H5 H6. rewrite H1, H2, H3, H4, H5, H6. reflexivity.
+Qed.
+
+(* the fields of the normalized reference *)
+Lemma normalized_fields u :
+  let v := normalize 63 u in
+  scheme v = omap lowercase (scheme u) /\ userInfo v = omap fix_pct (userInfo u)
+  /\ hostText v = norm_host_text u /\ ip4 v = ip4 u /\ ip6 v = ip6 u
+  /\ ipFuture v = omap lowercase (ipFuture u) /\ portText v = portText u
+  /\ pathSegs v = norm_segs u /\ absolutePath v = absolutePath u
+  /\ query v = omap fix_pct (query u) /\ fragment v = omap fix_pct (fragment u)
+  /\ is_host_set v = is_host_set u.
+Proof.
+  cbv zeta. rewrite (normalize_fields 63 u) by discriminate.
+  change (bit 63 M_SCHEME) with true. change (bit 63 M_USER_INFO) with true. change (bit 63 M_HOST) with true.
+  change (bit 63 M_PATH) with true. change (bit 63 M_QUERY) with true. change (bit 63 M_FRAGMENT) with true.
+  cbv iota. cbn [scheme userInfo hostText ip4 ip6 ipFuture portText pathSegs query fragment absolutePath].
+  repeat (split; [reflexivity|]). unfold is_host_set at 1. cbn [hostText ip4 ip6 ipFuture]. apply norm_host_is_some.
+Qed.
+
+Lemma pct_wf_parts u : uri_pct_wf u = true ->
+  opt_pct_wf (userInfo u) = true /\ (is_regname u = true -> opt_pct_wf (hostText u) = true)
+  /\ forallb pct_wf (pathSegs u) = true /\ opt_pct_wf (query u) = true /\ opt_pct_wf (fragment u) = true.
+Proof.
+  unfold uri_pct_wf. intros H. apply andb_prop in H. destruct H as [H Hfr].
+  apply andb_prop in H. destruct H as [H Hqu]. apply andb_prop in H. destruct H as [H Hps].
+  apply andb_prop in H. destruct H as [Hui Hho].
+  repeat split; try assumption. intros Hr. rewrite Hr in Hho. exact Hho.
+Qed.
+
+Lemma omap_fix_idem o : opt_pct_wf o = true -> omap fix_pct (omap fix_pct o) = omap fix_pct o.
+Proof. destruct o as [t|]; [|reflexivity]. intros H. cbn [omap]. rewrite fix_pct_idem by exact H. reflexivity. Qed.
+
+(* normalizing the reference first changes nothing in what normalization makes of the copied authority *)
+Lemma auth_norm_normalize u : uri_pct_wf u = true -> one_kind u = true ->
+  auth_norm (normalize 63 u) = auth_norm u.
+Proof.
+  intros Hwf Hone. destruct (pct_wf_parts u Hwf) as (Hui & Hho & _).
+  destruct (normalized_fields u) as (_ & Eui & Eht & E4 & E6 & Efu & Epo & _).
+  cbv zeta in *. unfold auth_norm, build. cbv zeta.
+  cbn [userInfo hostText ip4 ip6 ipFuture portText].
+  rewrite Eui, Eht, E4, E6, Efu, Epo. rewrite (omap_fix_idem _ Hui).
+  unfold norm_host_text. cbn [userInfo hostText ip4 ip6 ipFuture portText].
+  unfold one_kind in Hone. unfold is_regname in Hho.
+  destruct (hostText u) as [t|], (ip4 u) as [x4|], (ip6 u) as [x6|], (ipFuture u) as [xf|];
+    try discriminate Hone; cbn [omap]; rewrite ?lowercase_idem; try reflexivity.
+  specialize (Hho eq_refl). cbn [opt_pct_wf] in Hho.
+  destruct (host_norm_fixed t Hho) as (_ & F1 & F2). cbv zeta in F1, F2. rewrite F1, F2. reflexivity.
+Qed.
